@@ -3,7 +3,7 @@ from lib import terms
 from props import dbcommon as D
 
 ID = 'C07'
-IMPORTS = ['Engine.Db', 'Engine.DbCursor', 'Engine.DbFacts', 'Engine.RunDb', 'Engine.DbProg', 'Engine.RunDbProg']
+IMPORTS = ['Engine.Db', 'Engine.DbCursor', 'Engine.DbFacts', 'Engine.DbOpen', 'Engine.RunDb', 'Engine.DbProg', 'Engine.RunDbProg']
 THEOREMS = ['C07_db_refines_list_spec', 'C07_db_refines_list_spec_from_init', 'C07_sim_op', 'C07_query_cursor_answers',
             'C07_match_binds_pattern', 'C07_ids_invariant', 'C07_nothing_raises', 'C07_compiled_updates_are_list_operations',
             'C07_compiled_refines_list_spec', 'C07_compiled_run_is_cursor_history']
@@ -47,6 +47,12 @@ def gen(rng, tier):
         cases.append(D.gen_history(rng, nops, inter))
     for i in range(200 if tier == 'quick' else 3000):
         cases.append(D.gen_dbprog(rng, loopy=0.35))
+    # round 3: API operations whose arguments are variables of OPEN cursors (bound at that moment only); cursors finished
+    # in non-LIFO order
+    for i in range(90 if tier == 'quick' else 2000):
+        cases.append(D.gen_open_history(rng))
+    for i in range(30 if tier == 'quick' else 500):
+        cases.append(D.gen_nonlifo(rng))
     return cases
 
 def builtin_corpus():
@@ -106,7 +112,15 @@ def nontrivial(case, io):
     patvar = False
     long_list = any(len(l) >= 2 for o in io if len(o) == 2 and isinstance(o[1], list) for l in o[1])
     kind = {}
+    opened = False
     for e, o in zip(case['events'], io):
+        if e[0] == 'open' and e[2][0] == 'assert' and len(o) == 2 and len(o[0]) == 2 and o[0][0] == 'ok':
+            # an assert over the variables of an open cursor stored something that differs from the term as written
+            # (a variable was bound at that moment)
+            t = e[2][2]
+            written = D.canon_args([terms.term_obs(a) for a in (t[2] if t[0] == 'f' else [])])
+            if o[0][1][2] != written:
+                opened = True
         if e[0] == 'start':
             kind[e[1]] = e[2]
             t = e[3] if e[2] == 'r' else ['f', e[3], e[4]]
@@ -114,7 +128,7 @@ def nontrivial(case, io):
                 patvar = True
         if e[0] == 'next' and kind.get(e[1]) == 'r' and len(o) == 2 and o[0][0] == 'ans':
             ret_ans = True
-    return ret_ans and patvar and long_list
+    return opened or (ret_ans and patvar and long_list)
 
 def describe(case):
     if case.get('kind') == 'dbprog':
@@ -146,8 +160,14 @@ def distribution(cases, obs):
             e = o['end'] if isinstance(o, dict) else 'other'
             d['ended'][e] = d['ended'].get(e, 0) + 1
             continue
+        sh = c.get('shape', 'random')
+        d.setdefault('history_shapes', {})
+        d['history_shapes'][sh] = d['history_shapes'].get(sh, 0) + 1
         for e in c['events']:
             d['events'][e[0]] = d['events'].get(e[0], 0) + 1
+            if e[0] == 'open':
+                kk = 'open:' + e[2][0] + (':' + e[2][3] if e[2][0] == 'assert' else '')
+                d['events'][kk] = d['events'].get(kk, 0) + 1
             if e[0] in ('assert', 'start', 'retractall'):
                 d['via'][e[-1]] = d['via'].get(e[-1], 0) + 1
         b = str(len(c['events']) // 5 * 5)
